@@ -92,19 +92,27 @@ def shard(args):
             continue
         if i % 16 == 11:
             # a final response that arrives while the request body it answers is still being uploaded (an early 4xx/5xx, or any status;
-            # with and without Expect: 100-continue): the upload must still be delivered as exactly its Content-Length bytes and the
+            # with and without Expect: 100-continue): the upload must still be delivered as exactly its entity body and the
             # next request on the connection must follow it intact
             r = grammar.Rng(seed * 7919 + i)
             n = r.pick([2, 3, 7, 48, 300, 2000])
             body = bytes(r.randrange(256) for _ in range(n)) if r.chance(0.5) else (b'GET /x HTTP/1.1\r\nHost: h\r\n\r\n' * 100)[:n]
             expect = r.chance(0.6)
             status = r.pick(['403 Forbidden', '413 Payload Too Large', '401 Unauthorized', '417 Expectation Failed', '500 Oops', '200 OK', '404 Not Found'])
-            head = ('%s /up HTTP/1.1\r\nHost: h\r\n%sContent-Length: %d\r\n\r\n' % (r.pick(['POST', 'PUT']), 'Expect: 100-continue\r\n' if expect else '', n)).encode()
+            # the upload is Content-Length delimited or (a third of the cases) chunked: the "client gave up on the body" shortcut the
+            # response parser takes for a refused Expect: 100-continue is defined for a Content-Length body of which nothing has
+            # arrived; an upload that is already under way - in either framing - must be decoded to its end
+            chunked = r.chance(0.34)
+            wire = grammar.chunk_encode(r, body, set()) if chunked else body
+            head = ('%s /up HTTP/1.1\r\nHost: h\r\n%s%s\r\n\r\n' % (r.pick(['POST', 'PUT']), 'Expect: 100-continue\r\n' if expect else '',
+                                                                   'Transfer-Encoding: chunked' if chunked else 'Content-Length: %d' % n)).encode()
             rb = b'no' * r.randrange(0, 20)
             res0 = ('HTTP/1.1 %s\r\nContent-Length: %d\r\n\r\n' % (status, len(rb))).encode() + rb
             req1 = b'GET /next HTTP/1.1\r\nHost: h\r\n\r\n'
             res1 = b'HTTP/1.1 200 OK\r\nContent-Length: 2\r\n\r\nok'
             for c in range(4):
+                body_, n_ = body, n
+                body, n = wire, len(wire)
                 a = r.randrange(1, n)                    # at least one body byte is out before the answer, at least one after
                 b2 = r.randrange(a, n + 1)
                 ops = [(hxb.REQ, head + body[:a])] if r.chance(0.5) else [(hxb.REQ, head), (hxb.REQ, body[:a])]
@@ -115,10 +123,12 @@ def shard(args):
                     ops.append((hxb.REQ, body[a:b2]))
                 ops += [(hxb.REQ, body[b2:] + req1)] if r.chance(0.5) else ([(hxb.REQ, body[b2:])] if b2 < n else []) + [(hxb.REQ, req1)]
                 ops += [(hxb.RES, res1), (hxb.CLOSE, None)]
+                body, n = body_, n_
                 cfg = {'PERSONALITY': r.randrange(10), 'DUMP': hxb.DUMP_TX | hxb.DUMP_BODY, 'TX_HOOKS': r.randrange(2)}
                 key = (i << 5) | c
                 cases.append((key, cfg, ops))
-                meta[key] = (None, cfg, ops, 'early_final:%s:%s' % ('expect' if expect else 'plain', status.split()[0]), body)
+                meta[key] = (None, cfg, ops, 'early_final:%s:%s:%s' % ('expect' if expect else 'plain', status.split()[0], 'chunked' if chunked else 'cl'), body,
+                             len(wire) - 2 if chunked else n)
             continue
         big = (i % 8 == 0)
         ex = grammar.gen_exchange(seed * 1000003 + i, {'res_fold': True, 'max_body': 70000 if big and i % 64 == 0 else (3000 if big else 200), 'multipart': False, 'max_n': 3})
@@ -147,8 +157,10 @@ def shard(args):
         out['n'] += 1
         out['distinct'].add(hashlib.sha1(repr(ops).encode('latin-1', 'replace')).digest()[:8])
         if ex is None and style.startswith('early_final:'):
-            body = meta[d['id']][4]
+            body, want_msg = meta[d['id']][4:6]
             out['framings']['early_final'] = out['framings'].get('early_final', 0) + 1
+            if style.endswith(':chunked'):
+                out['framings']['early_final_chunked'] = out['framings'].get('early_final_chunked', 0) + 1
             txs = d.get('tx') or []
             errs = []
             if len(txs) != 2 or txs[0] is None or txs[1] is None:
@@ -158,8 +170,8 @@ def shard(args):
                 bd = t0['req_body']
                 if bd['n'] != len(body) or ('d' in bd and oracle.b(bd['d']) != body):
                     errs.append(('early_final_req_body', 'upload body handed to callbacks is %d bytes, the entity body is %d bytes' % (bd['n'], len(body))))
-                if t0['req_ent_len'] != len(body) or t0['req_msg_len'] != len(body):
-                    errs.append(('early_final_req_len', 'request_entity_len %d / request_message_len %d for a Content-Length body of %d bytes' % (t0['req_ent_len'], t0['req_msg_len'], len(body))))
+                if t0['req_ent_len'] != len(body) or t0['req_msg_len'] != want_msg:
+                    errs.append(('early_final_req_len', 'request_entity_len %d / request_message_len %d for an upload of %d body bytes (%d on the wire)' % (t0['req_ent_len'], t0['req_msg_len'], len(body), want_msg)))
                 if t0['req_progress'] == 5 and bd['marker'] < 1:
                     errs.append(('early_final_no_end_marker', 'upload completed without an end-of-body marker'))
                 if t0['req_progress'] != 5 or t0['res_progress'] != 5 or t1['req_progress'] != 5 or t1['res_progress'] != 5:
